@@ -302,8 +302,13 @@ impl<T: AsRef<[u8]> + AsMut<[u8]>> NdiscOption<T> {
     /// Set the Source/Target Link-layer Address.
     #[inline]
     pub fn set_link_layer_addr(&mut self, addr: RawHardwareAddress) {
+        let len = self.data_len() as usize * 8;
         let data = self.buffer.as_mut();
-        data[2..2 + addr.len()].copy_from_slice(addr.as_bytes())
+        data[2..2 + addr.len()].copy_from_slice(addr.as_bytes());
+        // The option is padded to a multiple of 8 octets; the padding must be zero.
+        if 2 + addr.len() < len && len <= data.len() {
+            data[2 + addr.len()..len].fill(0);
+        }
     }
 }
 
@@ -572,10 +577,15 @@ impl<'a> Repr<'a> {
                 let mut ip_packet = Ipv6Packet::new_unchecked(&mut packet);
                 header.emit(&mut ip_packet);
                 ip_packet.payload_mut().copy_from_slice(data);
+                // Zero the padding up to the next multiple of 8 octets.
+                let used = 8 + header.buffer_len() + data.len();
+                let total = used.div_ceil(8) * 8;
+                opt.buffer.as_mut()[used..total].fill(0);
             }
             Repr::Mtu(mtu) => {
                 opt.set_option_type(Type::Mtu);
                 opt.set_data_len(1);
+                opt.buffer.as_mut()[2..4].fill(0); // reserved
                 opt.set_mtu(mtu);
             }
             Repr::Unknown {
